@@ -167,6 +167,14 @@ decreasing_by
 
 def splitWs (s : Bytes) : List Bytes := splitWsLoop s 0
 
+/-- `split(sep1, sep2)` → `Dic`: `pairs = split(sep1); for each: j = pairs[i].indexOf(sep2); if (j > 0) dic[substring(0, j)] = substring(j + |sep2|)`
+    (association list in insertion order, later keys overwrite) -/
+def splitDic (s sep1 sep2 : Bytes) : List (Bytes × Bytes) :=
+  (split sep1 s).foldl (fun dic p =>
+    match indexOf p sep2 0 with
+    | some j => if j > 0 then (dic.filter (·.1 != sub p 0 j)) ++ [(sub p 0 j, sub p (j + sep2.length) p.length)] else dic
+    | none => dic) []
+
 /-- index arithmetic of `substr(i, n)`; `none` = the code would index before the buffer (`i < -len`) -/
 def substrIdx (len : Nat) (i : Int) (n : Nat) : Option (Nat × Nat) :=
   let i := if i < 0 then i + len else i
@@ -532,6 +540,17 @@ def ofF (text : Bytes) : Option Rep :=
     else
       (rd ss 0 text.length).bind fun src => (empty.assign (.ext src)).map fun s => { s with len := text.length }
 
+/-- `replaceme(a, b)`: `do { if (*p == a) *p = b; } while (*p++);` — the loop test reads the byte *after* the
+    replacement; `none` = the scan ran off the block (only possible when the terminator itself is replaced, `a = 0`) -/
+def replaceMeBuf (a b : UInt8) : Bytes → Option Bytes
+  | [] => none
+  | c :: t =>
+    let c' := if c == a then b else c
+    if c' == 0 then some (c' :: t) else (replaceMeBuf a b t).map (c' :: ·)
+
+def replaceMe (r : Rep) (a b : UInt8) : Option Rep :=
+  (replaceMeBuf a b r.buf).map fun buf => { r with buf := buf }
+
 /-! ### the in-place mutations of the line protocol, as one interpreter (what the driver runs on `cur`) -/
 
 /-- total encoding of a piece `[off, off+n)` of a string of length `len` -/
@@ -570,6 +589,8 @@ inductive Mut where
   | reserve (n : Nat)
   /-- `s.data()[a % (len+1)] = 0; s.fix()` -/
   | pokeFix (a : Nat)
+  /-- `s.replaceme(a, b)` -/
+  | replaceMe (a b : UInt8)
 deriving Repr
 
 def mutate (r : Rep) : Mut → Option Rep
@@ -591,6 +612,7 @@ def mutate (r : Rep) : Mut → Option Rep
       (wr r1.buf 0 (List.replicate n c)).map fun b => { r1 with buf := b }
   | .reserve n => r.resize n true false
   | .pokeFix a => (wr r.buf (a % (r.len + 1)) [0]).map fun b => { r with buf := b, len := (cstr b).length }
+  | .replaceMe a b => r.replaceMe a b
 
 /-- a whole history of mutations -/
 def run (r : Rep) : List Mut → Option Rep
